@@ -199,6 +199,7 @@ def run_c02(run: core.Run, n: int) -> None:
     stats = {"timeouts": 0, "oracle": 0, "evals": 0, "eval_budget": n}
     run_single_layer(run, stats)
     run_d4a(run, "C02", stats)
+    run_pv3(run, stats)
     for i in range(n // 6):
         for e in complement_exprs(run.rng):
             if e.kind in ("and", "or"):
@@ -257,6 +258,22 @@ def run_d4a(run: core.Run, prop: str, stats) -> None:
                                  {"op": "eval", "text": text, "env": {k: (sorted(v) if isinstance(v, set) else v) for k, v in env.items()}})
                 f.family = mk.known_family([text], env)
                 run.fail(f)
+
+
+def run_pv3(run: core.Run, stats) -> None:
+    """python_version atoms whose operand has a trailing `.0` segment, merged with python_full_version atoms"""
+    for a, b, full in mk.PV3_PAIRS:
+        X, Y = full.split(".")[:2]
+        env = {"python_full_version": full, "python_version": f"{X}.{Y}", "platform_release": "5.10", "implementation_version": full,
+               "platform_version": "#1", "extra": set(), "extras": set(), "dependency_groups": set()}
+        for k, v in mk.STR_VARS.items():
+            env[k] = v[0]
+        envs = [env] + mk.envs_for([a, b], run.rng, 8)
+        x, y = mk.parse_marker(a), mk.parse_marker(b)
+        for kind in ("and", "or"):
+            comb = (lambda p, q: p and q) if kind == "and" else (lambda p, q: p or q)
+            for e in (E(kind, E("leaf", a), E("leaf", b)), E(kind, E("leaf", b), E("leaf", a))):
+                check_expr(run, "C02", e, envs, lambda en, x=x, y=y, comb=comb: comb(ev(x, en), ev(y, en)), stats)
 
 
 def pkg_env(env):
